@@ -85,3 +85,68 @@ func VHStack() {
 		vCover("stack ends with >= 2")
 	}
 }
+
+// VHQueuePhases / VHStackPhases: long structured histories - fill, partial drain, refill past
+// any internal capacity, drain completely - with every combination of phase lengths up to P.
+func VHQueuePhases() {
+	var q Queue[int]
+	var model []int
+	p := vParam("P")
+	phase := func(enq bool, n int) {
+		for i := 0; i < n; i++ {
+			if enq {
+				v := vInt("v")
+				q.Enqueue(v)
+				model = append(model, v)
+				continue
+			}
+			got, ok := q.Dequeue()
+			vAssert(ok, "phases: Dequeue on a non-empty queue reports true")
+			vAssert(got == model[0], "phases: Dequeue returns values in the order they were enqueued")
+			model = model[1:]
+		}
+		pk, ok := q.Peek()
+		vAssert(ok == (len(model) > 0), "phases: Peek reports emptiness")
+		if len(model) > 0 {
+			vAssert(pk == model[0], "phases: Peek returns the next value to dequeue")
+		}
+		vAssert(q.Len() == len(model), "phases: Len is the number of values inside")
+	}
+	phase(true, vChoose("fill", p+1))
+	phase(false, vChoose("drain", len(model)+1))
+	phase(true, vChoose("refill", p+1))
+	phase(false, vChoose("drain2", len(model)+1))
+	phase(true, vChoose("refill2", 3))
+	phase(false, len(model))
+	_, ok := q.Dequeue()
+	vAssert(!ok, "phases: the drained queue is empty")
+	vCover("queue phases done")
+}
+
+func VHStackPhases() {
+	var s Stack[int]
+	var model []int
+	p := vParam("P")
+	phase := func(push bool, n int) {
+		for i := 0; i < n; i++ {
+			if push {
+				v := vInt("v")
+				s.Push(v)
+				model = append(model, v)
+				continue
+			}
+			got, ok := s.Pop()
+			vAssert(ok, "phases: Pop on a non-empty stack reports true")
+			vAssert(got == model[len(model)-1], "phases: Pop returns values in reverse order of pushing")
+			model = model[:len(model)-1]
+		}
+		vAssert(len(s) == len(model), "phases: len is the number of values inside")
+	}
+	phase(true, vChoose("fill", p+1))
+	phase(false, vChoose("drain", len(model)+1))
+	phase(true, vChoose("refill", p+1))
+	phase(false, len(model))
+	_, ok := s.Pop()
+	vAssert(!ok, "phases: the drained stack is empty")
+	vCover("stack phases done")
+}
